@@ -5,14 +5,14 @@
      scr t        : (tw + bw + lw + #tabs + widest row) * (th + max (bh, #rows)) + 1   — the screen measure incl. scrollback
      Inv09 t      : the C09 invariant (every state reachable without a text-area resize: Props/C09.v) *)
 From Coq Require Import ZArith NArith List Bool Lia.
-From IE Require Import Model.TermCore Model.AnsiTok Model.Cost Model.Alloc Proofs.TermProofs Proofs.CostProofs Proofs.AllocProofs Proofs.TicksProofs Proofs.MacroProofs Proofs.SixelCostProofs Proofs.LoadCostProofs Run.RunC03 Gen.MacroLimit.
+From IE Require Import Model.TermCore Model.AnsiTok Model.Cost Model.Alloc Proofs.TermProofs Proofs.CostProofs Proofs.AllocProofs Proofs.TicksProofs Proofs.MacroProofs Proofs.SixelCostProofs Proofs.LoadCostProofs Run.RunC03 Gen.MacroLimit Gen.SixelGen.
 From IE Require Model.Sixel Model.Font Model.SixelCost Lib.C05Lib Model.Attr Model.C05Buf Model.C05Bin Model.C05XBin Model.C05Idf Model.C05Tundra Model.C02Loaders Model.LoadCost.
 Import ListNotations.
 Local Open Scope Z_scope.
 
 (* every CSI final byte without intermediate: primitive calls <= 4 (n+1) scr — unconditionally after the clamp fixes
-   (SU SD ICH DCH IL DL CVT CBT CUU ...), for REP only when the count does not exceed the screen *)
-Theorem cost_bound : forall t p is_start ch n, Inv09 t -> 0 <= n -> nlen (nums p) <= n -> ~ KnownC03_rep t p ch ->
+   (SU SD ICH DCH IL DL CVT CBT CUU REP ...) *)
+Theorem cost_bound : forall t p is_start ch n, Inv09 t -> 0 <= n -> nlen (nums p) <= n ->
   0 <= iters (snd (csi_final_c t p is_start ch)) <= 4 * (n + 1) * scr t.
 Proof. exact cost_bound_l. Qed.
 (* CSI Pn SP @ (SL), CSI Pn SP A (SR), every other SP final: unconditional *)
@@ -50,26 +50,36 @@ Theorem sp_arms_only : forall inv t p ch, (ch =? 65) || (ch =? 64) = false -> st
   fst (csi_sp_c t p ch) = astep_gen inv (mkA t p) ch.
 Proof. exact sp_arms_only_l. Qed.
 
-(* ---- known class REP: the work is linear in the parameter ------------------------------------------------------------------------------ *)
-Theorem rep_linear : forall t c n, (exists t', fst (rep_c t c n) = ROk t') -> iters (snd (rep_c t c n)) = Z.max 0 n.
-Proof. exact rep_linear_l. Qed.
-(* `A CSI 1000 b` on a 2 x 1 screen (7 bytes): the bound of cost_bound is exceeded *)
-Theorem rep_refuted : Inv09 (init_term 2 1) /\ nlen (nums rep_witness_p) <= 7 /\
-  4 * (7 + 1) * scr (init_term 2 1) < iters (snd (csi_final_c (init_term 2 1) rep_witness_p false 98)).
-Proof. exact rep_refuted_l. Qed.
-(* known class hex-macro repeat: `!3000;41;` *)
-Theorem hexmacro_refuted : exists s, zlen s < 64 /\ 300 * zlen s < snd (hex_macro_t s HFirst false [] 0 [] 0).
+(* ---- the former known class REP (repaired: at most terminal width x height copies) ------------------------------------------------------ *)
+(* after the fix the number of print_char calls is the parameter clamped to one screen *)
+Theorem rep_clamped : forall t c n, (exists t', fst (rep_c t c n) = ROk t') -> iters (snd (rep_c t c n)) = Z.max 0 (Z.min n (rep_limit t)).
+Proof. exact rep_clamped_l. Qed.
+(* the code BEFORE the fix (`rep_c_before_fix`: one print_char per count): linear in the parameter *)
+Theorem rep_linear_before_fix : forall t c n, (exists t', fst (rep_c_before_fix t c n) = ROk t') -> iters (snd (rep_c_before_fix t c n)) = Z.max 0 n.
+Proof. exact rep_linear_before_fix_l. Qed.
+(* `A CSI 1000 b` on a 2 x 1 screen (7 bytes): the old loop exceeded the bound of cost_bound; the repaired dispatcher prints 2 copies *)
+Theorem rep_before_fix_refuted : Inv09 (init_term 2 1) /\ nlen (nums rep_witness_p) <= 7 /\
+  4 * (7 + 1) * scr (init_term 2 1) < iters (snd (rep_c_before_fix (init_term 2 1) (print_cell (init_term 2 1) (last_char rep_witness_p)) (first_or (nums rep_witness_p) 1)))
+  /\ iters (snd (csi_final_c (init_term 2 1) rep_witness_p false 98)) = 2.
+Proof. exact rep_before_fix_refuted_l. Qed.
+(* the former known class hex-macro repeat, the parser BEFORE the fix (hex_macro_t_before_fix: no size limit): `!3000;41;` = 9 bytes, more than 300 x length steps *)
+Theorem hexmacro_before_fix_refuted : exists s, zlen s < 64 /\ 300 * zlen s < snd (hex_macro_t_before_fix s HFirst false [] 0 [] 0).
 Proof. exact hexmacro_refuted_l. Qed.
 (* the former known class macro recursion (repaired by 2513579, MAX_MACRO_NESTING): in the code BEFORE the nesting limit (macro_chars_nolimit,
    Model/Cost.v) a macro that invokes itself replays without end, whatever nesting depth is explored.  After the fix: macro_recursion_bounded below *)
 Theorem macro_recursion_before_fix_refuted : forall fuel, macro_chars_nolimit fuel [(1, [27; 91; 49; 42; 122])] 1 = None.
 Proof. exact macro_self_diverges. Qed.
-(* known class sixel repeat: `!n` calls parse_sixel_data n times *)
+(* the former known class sixel repeat: the loop of `!n` calls parse_sixel_data n times (true of the loop before and after the fix;
+   after the fix the loop is entered with n <= MAX_SIXEL_DIMENSION only: sixel_ticks_bound_abs below) *)
 Theorem sixel_repeat_linear : forall n s ch k, (exists s', fst (repeat_data_t n s ch k) = Sixel.Ok s') -> snd (repeat_data_t n s ch k) = k + Z.of_nat n.
 Proof. exact sixel_repeat_linear_l. Qed.
-(* known class sixel raster: 22 bytes ask for more than 1 GiB *)
-Theorem sixel_raster_refuted : 2 ^ 30 < raster_alloc [99999; 99999] /\ 2 ^ 30 < raster_alloc [2147483647].
+(* the former known class sixel raster: BEFORE the fix 22 bytes asked for more than 1 GiB (raster_alloc = the request of the old ReadSize arm);
+   after the fix such a header is the error InvalidPictureSize (sixel_raster_refused) *)
+Theorem sixel_raster_before_fix_refuted : 2 ^ 30 < raster_alloc [99999; 99999] /\ 2 ^ 30 < raster_alloc [2147483647].
 Proof. exact sixel_raster_refuted_l. Qed.
+Theorem sixel_raster_refused : forall s v h rest, Sixel.nums s = v :: h :: rest -> existsb (fun n => Sixel.MAX_SIXEL_DIMENSION <? n) rest = true ->
+  Sixel.finish_size s = Sixel.Err 3.
+Proof. exact sixel_raster_refused_l. Qed.
 
 (* ---- bounded without condition ------------------------------------------------------------------------------------------------------------ *)
 Theorem avatar_repeat_bound : forall n, n <= 255 -> avatar_repeat_iters n <= 255.
@@ -125,7 +135,7 @@ Theorem alloc_bound_dollar : forall t p ch n, Inv09 t -> 0 <= n ->
 Proof. exact alloc_bound_dollar_pair_l. Qed.
 
 (* ---- (b) weighted iteration total of every CSI control function; the clip of the rectangular-area operations ------------------------------------------- *)
-Theorem ticks_bound : forall t p is_start ch n, Inv09 t -> 0 <= n -> nlen (nums p) <= n -> ch <> 98 ->
+Theorem ticks_bound : forall t p is_start ch n, Inv09 t -> 0 <= n -> nlen (nums p) <= n ->
   0 <= ticks (snd (csi_final_c t p is_start ch)) <= 8 * (n + 1) * (scr t * scr t).
 Proof. exact ticks_bound_l. Qed.
 Theorem ticks_bound_sp : forall t p ch, Inv09 t -> 0 <= ticks (snd (csi_sp_c t p ch)) <= scr t * scr t.
@@ -147,13 +157,27 @@ Proof. exact rqcra_arm_only_l. Qed.
 (* ---- (c) hex-macro repeat groups and macro replay: conditional bounds ------------------------------------------------------------------------------------------------ *)
 (* parse_hex_macro_sequence: characters read + characters appended, and the length of the macro, are at most (1 + largest repeat count) x length;
    hex_reps s HFirst false 0 is the largest repeat count of a group opened in s: the known class `hexmacro-repeat` is exactly a large value of it *)
+(* AFTER THE FIX (MAX_MACRO_SIZE = 65536 characters, Parser::push_repeat_group): UNCONDITIONAL - whatever the repeat counts, the parser reads every character once,
+   appends at most MAX_MACRO_SIZE characters in total (a group that would exceed the limit is refused before anything is appended) and the stored macro holds at most
+   MAX_MACRO_SIZE characters; hex_macro_t IS the parser of the character-level model (tick_version_same_state) *)
 Theorem hexmacro_bound : forall s,
-  snd (hex_macro_t s HFirst false [] 0 [] 0) <= zlen s * (1 + hex_reps s HFirst false 0) /\
-  (forall mac, fst (hex_macro_t s HFirst false [] 0 [] 0) = Some mac -> zlen mac <= zlen s * (1 + hex_reps s HFirst false 0)).
+  0 <= snd (hex_macro_t s HFirst false [] 0 [] 0) <= zlen s + MAX_MACRO_SIZE /\
+  (forall mac, fst (hex_macro_t s HFirst false [] 0 [] 0) = Some mac -> zlen mac <= MAX_MACRO_SIZE).
+Proof. exact hexmacro_bound_fix_l. Qed.
+(* `!2147483647;41;` and `!65537;41;` are refused after reading the group (15 resp. 10 steps, nothing appended); `!3000;41;` still expands (3009 steps) *)
+Theorem hexmacro_refused :
+  hex_macro_t [33; 50; 49; 52; 55; 52; 56; 51; 54; 52; 55; 59; 52; 49; 59] HFirst false [] 0 [] 0 = (None, 15) /\
+  hex_macro_t [33; 54; 53; 53; 51; 55; 59; 52; 49; 59] HFirst false [] 0 [] 0 = (None, 10) /\
+  hex_macro_t [33; 51; 48; 48; 48; 59; 52; 49; 59] HFirst false [] 0 [] 0 = (Some (repeat_str 3000 [65]), 3009).
+Proof. exact hexmacro_refused_l. Qed.
+(* the parser BEFORE the fix (hex_macro_t_before_fix): the former conditional bounds, the former known class being a large value of hex_reps *)
+Theorem hexmacro_bound_before_fix : forall s,
+  snd (hex_macro_t_before_fix s HFirst false [] 0 [] 0) <= zlen s * (1 + hex_reps s HFirst false 0) /\
+  (forall mac, fst (hex_macro_t_before_fix s HFirst false [] 0 [] 0) = Some mac -> zlen mac <= zlen s * (1 + hex_reps s HFirst false 0)).
 Proof. exact hexmacro_bound_l. Qed.
-Theorem hexmacro_bound_cond : forall s B, ~ KnownC03_hexrep s B -> snd (hex_macro_t s HFirst false [] 0 [] 0) <= zlen s * (1 + B).
+Theorem hexmacro_bound_cond_before_fix : forall s B, ~ KnownC03_hexrep s B -> snd (hex_macro_t_before_fix s HFirst false [] 0 [] 0) <= zlen s * (1 + B).
 Proof. exact hexmacro_bound_known_l. Qed.
-Theorem hexmacro_linear : forall s, hex_reps s HFirst false 0 = 0 -> snd (hex_macro_t s HFirst false [] 0 [] 0) <= zlen s.
+Theorem hexmacro_linear_before_fix : forall s, hex_reps s HFirst false 0 = 0 -> snd (hex_macro_t_before_fix s HFirst false [] 0 [] 0) <= zlen s.
 Proof. exact hexmacro_linear_l. Qed.
 (* invoke_macro_by_id, EVERY macro table (recursive or not; the counter of the code bounds the nesting, fuel = MAX_MACRO_NESTING - counter):
    the characters replayed are at most B (1 + c + ... + c^(fuel-1)) for bodies of at most B characters holding at most c invocations each *)
@@ -194,6 +218,19 @@ Theorem sixel_image_bound : forall hsl pal0 vs hs data w h d, Sixel.parse_from h
   let cs := data ++ [35] in let s0 := Sixel.init_state pal0 vs hs in let T := SixelCost.zlenN cs + SixelCost.rep_sum hsl s0 cs in
   SixelCost.zlenN d <= Z.max (6 * T + 6) (snd (SixelCost.decl_max hsl s0 cs)) * (4 * Z.max T (fst (SixelCost.decl_max hsl s0 cs))).
 Proof. exact sixel_image_bound_l. Qed.
+(* AFTER THE FIX (MAX_SIXEL_DIMENSION = 4096): the same three bounds without any number of the payload - every repeat group runs at most
+   MAX_SIXEL_DIMENSION times, picture_data never holds more than 4096 rows of 4 x 4096 bytes, the assembled image is at most 64 MiB *)
+Theorem sixel_ticks_bound_abs : forall hsl s cs,
+  0 <= snd (SixelCost.parse_chars_t hsl s cs 0) <= SixelCost.zlenN cs * (1 + Sixel.MAX_SIXEL_DIMENSION).
+Proof. exact sixel_ticks_bound_abs_l. Qed.
+Theorem sixel_alloc_bound_abs : forall hsl pal0 vs hs cs s', Sixel.parse_chars hsl (Sixel.init_state pal0 vs hs) cs = Sixel.Ok s' ->
+  SixelCost.sixel_bytes (Sixel.rows s') <= 4 * Sixel.MAX_SIXEL_DIMENSION * Sixel.MAX_SIXEL_DIMENSION.
+Proof. exact sixel_alloc_bound_abs_init_l. Qed.
+Theorem sixel_image_bound_abs : forall hsl pal0 vs hs data w h d, Sixel.parse_from hsl pal0 vs hs data = Sixel.Ok (w, h, d) ->
+  SixelCost.zlenN d <= 4 * Sixel.MAX_SIXEL_DIMENSION * Sixel.MAX_SIXEL_DIMENSION.
+Proof. exact sixel_image_bound_abs_l. Qed.
+Theorem sixel_limit_tied : Sixel.MAX_SIXEL_DIMENSION = SixelGen.MAX_SIXEL_DIMENSION_SRC /\ 4 * Sixel.MAX_SIXEL_DIMENSION * Sixel.MAX_SIXEL_DIMENSION = 2 ^ 26.
+Proof. split; reflexivity. Qed.
 
 (* ---- (e) binary loaders: the cell loops of the C05 / C02 loader models with the counters of Model/LoadCost.v ------------------------------------------------------------- *)
 (* BIN, ADF, uncompressed XBin (pair_loop): cells stored = pairs read (<= half the bytes); the loaded layer holds at most max(what was there, pairs + width) cells *)
@@ -231,8 +268,8 @@ Proof. vm_compute. reflexivity. Qed.
 (* CSI 2;5 r CSI 2147483647 A : 12 + 1 + 4 scrolls of the cursor-up loop *)
 Example cuu_clamped : nth 1 (run_seq 80 25 [27; 91; 50; 59; 53; 114] [27; 91; 50; 49; 52; 55; 52; 56; 51; 54; 52; 55; 65]) 0 = 17.
 Proof. vm_compute. reflexivity. Qed.
-(* A CSI 3000 b: 3000 print_char calls (known class when the count exceeds tw*th = 2000) *)
-Example rep_linear_example : nth 1 (run_seq 80 25 [65] [27; 91; 51; 48; 48; 48; 98]) 0 = 3006.
+(* A CSI 3000 b on 80 x 25: 2000 print_char calls after the fix (3000 before) *)
+Example rep_clamped_example : nth 1 (run_seq 80 25 [65] [27; 91; 51; 48; 48; 48; 98]) 0 = 2006.
 Proof. vm_compute. reflexivity. Qed.
 (* ESC P 1;0;1!z 1B5B312A7A ESC \ CSI 1*z : the character-level model ends in the error value MacroNestingTooDeep (class 1), nothing allocated;
    the abstraction counts 16 levels x 5 characters and reports the abandoned chain *)
